@@ -28,71 +28,155 @@ structure PrepOK (ext : Nat → Nat) (dvars : List MVar) (mb : Mgr) (p : B2MPrep
   btv : p.bitToVar = b2mBitToVar dvars
   tbl : p.tbl = m2.tbl
   inv : ReorderInv ext m2
-  off : m2.lastLen = none
   zone : ZoneOK dvars m2.tbl
   /-- held references keep their meaning as functions of the variable names -/
   held : ∀ u : Nat, 0 < ext u → m2.tbl.Mem (u : Int) ∧
     ∀ a, denN m2.tbl (u : Int) a = denN mb.tbl (u : Int) a
   names : ∀ v : String, m2.tbl.vars.contains v = mb.tbl.vars.contains v
 
-theorem b2mPrepare_spec (ext : Nat → Nat) (mb : Mgr) (h : ReorderInv ext mb) (hoff : mb.lastLen = none)
+/-- facts about the target order -/
+structure OrderFacts (mb : Mgr) (dvars : List MVar) (order : List String) (sorted : List MVar) : Prop where
+  is_ : OrderIs dvars order sorted
+  nd : order.Nodup
+  len : order.length = mb.nvars
+  mem : ∀ v, v ∈ order ↔ mb.tbl.vars.contains v = true
+
+theorem orderFacts {mb : Mgr} {dvars : List MVar} (hd : DvarsOK mb.tbl dvars) (order : List String)
+    (hord : b2mOrder dvars = .ok order) : ∃ sorted, OrderFacts mb dvars order sorted := by
+  obtain ⟨sorted, hS⟩ := b2mOrder_spec hd order hord
+  have hperm : order.Perm mb.tbl.vars.keys := by
+    rw [hS.eq]
+    exact (hS.perm.flatMap_right _).trans hd.bits
+  refine ⟨sorted, hS, hperm.nodup_iff.mpr TreeMap.nodup_keys, ?_, ?_⟩
+  · rw [hperm.length_eq, TreeMap.length_keys]; rfl
+  · intro v; rw [hperm.mem_iff, keys_mem_iff]
+
+/-- after the collection: the reordering invariant, the requested order is a proper request, held
+references keep their meaning -/
+theorem prep_gc (ext : Nat → Nat) (mb : Mgr) (h : ReorderInv ext mb) (dvars : List MVar)
+    (order : List String) (sorted : List MVar) (hO : OrderFacts mb dvars order sorted)
+    (m1 : Mgr) (hG : GcFullPost mb ext m1) :
+    ReorderInv ext m1 ∧ (∀ k : Nat, m1.ref[k]? ≠ some 0) ∧ ReqOrder (b2mOrderDict order) m1 ∧
+    m1.nvars = mb.nvars ∧
+    m1.tbl.vars = mb.tbl.vars ∧ m1.sched = mb.sched ∧
+    ∀ u : Nat, 0 < ext u → ∀ a, denN m1.tbl (u : Int) a = denN mb.tbl (u : Int) a := by
+  have hsub := hG.sub
+  have hnd := hO.nd
+  have hI1 : ReorderInv ext m1 := by
+    refine ⟨hG.inv, orderOK_congr h.order hsub.vars hsub.l2v, hG.refExact, ?_, ?_⟩
+    · rw [hsub.ctx, hsub.lastLen]; exact h.off
+    · rw [hsub.roots]; exact h.rootsHeld
+  have hnv1 : m1.nvars = mb.nvars := by
+    show m1.tbl.vars.size = mb.tbl.vars.size
+    rw [hsub.vars]
+  refine ⟨hI1, hG.noZero, ?_, hnv1, hsub.vars, hsub.sched, ?_⟩
+  · refine ⟨?_, ?_, ?_, ?_⟩
+    · rw [orderDict_length order hnd, hO.len, hnv1]
+    · intro i hi
+      obtain ⟨v, hv⟩ := hI1.order.total i hi
+      have hdecl : mb.tbl.vars.contains v = true := by
+        rw [← hsub.vars]
+        exact (vars_contains_iff m1.tbl v).mpr ⟨i, (hI1.order.inv v i).mpr hv⟩
+      obtain ⟨k, hk, hkv⟩ := List.getElem_of_mem ((hO.mem v).mpr hdecl)
+      exact ⟨v, ((k : Nat) : Int), hv, by rw [← hkv]; exact orderDict_lookup order hnd k hk⟩
+    · intro v p hl
+      obtain ⟨k, hk, _, hp⟩ := orderDict_lookup_some order hnd v p hl
+      subst hp
+      constructor
+      · omega
+      · have : k < m1.nvars := by rw [hnv1, ← hO.len]; exact hk
+        exact_mod_cast this
+    · intro v v' p h1 h2
+      obtain ⟨k, hk, hkv, hp⟩ := orderDict_lookup_some order hnd v p h1
+      obtain ⟨k', hk', hkv', hp'⟩ := orderDict_lookup_some order hnd v' p h2
+      have : k = k' := by omega
+      subst this
+      rw [← hkv, ← hkv']
+  · intro u hu a
+    have hm1 : m1.tbl.Mem (u : Int) := hI1.held_mem hu
+    unfold denN
+    rw [den_ext hsub.ext hG.inv.wf.toWF (u : Int) _ hm1, lift_congr hsub.l2v]
+
+/-- after the reordering: the bits are in zones, every bit sits at its position of the order -/
+theorem prep_zone (ext : Nat → Nat) (mb : Mgr) (dvars : List MVar) (hd : DvarsOK mb.tbl dvars)
+    (order : List String) (sorted : List MVar) (hO : OrderFacts mb dvars order sorted)
+    (m1 m2 : Mgr) (hv1 : m1.tbl.vars = mb.tbl.vars) (hnv1 : m1.nvars = mb.nvars)
+    (hI2 : ReorderInv ext m2) (hR : ReorderRel ext m1 m2) (hnv2 : m2.nvars = m1.nvars)
+    (hpos : ∀ v p, (b2mOrderDict order).lookup v = some p → m1.tbl.vars.contains v = true →
+      m2.tbl.vars[v]? = some p.toNat ∧ m2.tbl.l2v[p.toNat]? = some v) :
+    ZoneOK dvars m2.tbl ∧
+    (∀ v : String, m2.tbl.vars.contains v = mb.tbl.vars.contains v) ∧
+    (∀ k (hk : k < order.length),
+      m2.tbl.vars[order[k]]? = some k ∧ m2.tbl.l2v[k]? = some order[k]) := by
+  have hS := hO.is_
+  have hnd := hO.nd
+  have hposk : ∀ k (hk : k < order.length),
+      m2.tbl.vars[order[k]]? = some k ∧ m2.tbl.l2v[k]? = some order[k] := by
+    intro k hk
+    have hdecl : m1.tbl.vars.contains order[k] = true := by
+      rw [hv1]; exact (hO.mem _).mp (List.getElem_mem hk)
+    have := hpos order[k] ((k : Nat) : Int) (orderDict_lookup order hnd k hk) hdecl
+    simpa using this
+  have hnvo : m2.tbl.nvars = order.length := by
+    show m2.nvars = _
+    rw [hnv2, hnv1, hO.len]
+  have hflat : order = (sorted.map (·.bits)).flatten := by
+    rw [hS.eq, List.flatMap_def]
+  have hblock : ∀ ℓ (hℓ : ℓ < order.length),
+      ∃ (hj : blockOf (sorted.map (·.bits)) ℓ < sorted.length),
+        order[ℓ] ∈ (sorted[blockOf (sorted.map (·.bits)) ℓ]).bits := by
+    intro ℓ hℓ
+    have hℓ' : ℓ < (sorted.map (·.bits)).flatten.length := by rw [← hflat]; exact hℓ
+    obtain ⟨hj, hm⟩ := blockOf_spec (sorted.map (·.bits)) ℓ hℓ'
+    have hj' : blockOf (sorted.map (·.bits)) ℓ < sorted.length := by simpa using hj
+    refine ⟨hj', ?_⟩
+    have e : order[ℓ] = (sorted.map (·.bits)).flatten[ℓ] := by
+      congr 1 <;> first | exact hflat | skip
+    rw [e]
+    simpa using hm
+  have hbnd := hd.bits_nodup
+  have hzl : ∀ ℓ (hℓ : ℓ < order.length),
+      zoneLevel dvars m2.tbl ℓ = blockOf (sorted.map (·.bits)) ℓ := by
+    intro ℓ hℓ
+    obtain ⟨hj, hbm⟩ := hblock ℓ hℓ
+    obtain ⟨hdm, hlv⟩ := hS.at_ _ hj
+    unfold zoneLevel
+    rw [(hposk ℓ hℓ).2]
+    simp only
+    rw [btv_uniq hbnd hdm hbm]
+    exact hlv
+  have hnames : ∀ v : String, m2.tbl.vars.contains v = mb.tbl.vars.contains v := by
+    intro v; rw [hR.names v, hv1]
+  refine ⟨⟨hI2.order, ?_, ?_, ?_, ?_, ?_, ?_, ?_⟩, hnames, hposk⟩
+  · intro ℓ hℓ
+    rw [hnvo] at hℓ
+    obtain ⟨hj, hbm⟩ := hblock ℓ hℓ
+    obtain ⟨hdm, _⟩ := hS.at_ _ hj
+    exact ⟨order[ℓ], _, (hposk ℓ hℓ).2, btv_uniq hbnd hdm hbm, hdm, hbm⟩
+  · intro a b hab hb
+    rw [hnvo] at hb
+    rw [hzl a (by omega), hzl b hb]
+    exact blockOf_mono _ a b hab
+  · intro d hdm b hb
+    rw [hnames, ← keys_mem_iff, ← hd.bits.mem_iff, List.mem_flatMap]
+    exact ⟨d, hdm, hb⟩
+  · intro d hdm b hb; exact btv_uniq hbnd hdm hb
+  · exact bits_nodup_of_flatMap hbnd
+  · intro d hdm; exact hd.level_lt hdm
+  · exact hd.level_inj
+
+theorem b2mPrepare_spec (ext : Nat → Nat) (mb : Mgr) (h : ReorderInv ext mb)
     (dvars : List MVar) (hd : DvarsOK mb.tbl dvars) (p : B2MPrep) (m2 : Mgr)
     (hr : b2mPrepare dvars mb = (.ok p, m2)) : PrepOK ext dvars mb p m2 := by
   unfold b2mPrepare at hr
   split at hr
   · cases hr
   · next order hord =>
-    obtain ⟨sorted, hS⟩ := b2mOrder_spec hd order hord
-    -- the order: a permutation of the declared variables
-    have hperm : order.Perm mb.tbl.vars.keys := by
-      rw [hS.eq]
-      exact (hS.perm.flatMap_right _).trans hd.bits
-    have hnd : order.Nodup := hperm.nodup_iff.mpr TreeMap.nodup_keys
-    have hlen : order.length = mb.nvars := by
-      rw [hperm.length_eq, TreeMap.length_keys]; rfl
-    have hmem : ∀ v, v ∈ order ↔ mb.tbl.vars.contains v = true := by
-      intro v; rw [hperm.mem_iff, keys_mem_iff]
-    -- collection
+    obtain ⟨sorted, hO⟩ := orderFacts hd order hord
     obtain ⟨m1, hgc, hG⟩ := collectGarbage_spec mb ext h.inv h.refExact
     rw [hgc] at hr
     simp only at hr
-    have hsub := hG.sub
-    have hI1 : ReorderInv ext m1 := by
-      refine ⟨hG.inv, orderOK_congr h.order hsub.vars hsub.l2v, hG.refExact, ?_, ?_⟩
-      · rw [hsub.ctx, hsub.lastLen]; exact h.off
-      · rw [hsub.roots]; exact h.rootsHeld
-    have hnv1 : m1.nvars = mb.nvars := by
-      show m1.tbl.vars.size = mb.tbl.vars.size
-      rw [hsub.vars]
-    have hheld1 : ∀ u : Nat, 0 < ext u → ∀ a, denN m1.tbl (u : Int) a = denN mb.tbl (u : Int) a := by
-      intro u hu a
-      have hm1 : m1.tbl.Mem (u : Int) := hI1.held_mem hu
-      unfold denN
-      rw [den_ext hsub.ext hG.inv.wf.toWF (u : Int) _ hm1, lift_congr hsub.l2v]
-    -- the requested order
-    have hreq : ReqOrder (b2mOrderDict order) m1 := by
-      refine ⟨?_, ?_, ?_, ?_⟩
-      · rw [orderDict_length order hnd, hlen, hnv1]
-      · intro i hi
-        obtain ⟨v, hv⟩ := hI1.order.total i hi
-        have hdecl : mb.tbl.vars.contains v = true := by
-          rw [← hsub.vars]
-          exact (vars_contains_iff m1.tbl v).mpr ⟨i, (hI1.order.inv v i).mpr hv⟩
-        obtain ⟨k, hk, hkv⟩ := List.getElem_of_mem ((hmem v).mpr hdecl)
-        exact ⟨v, ((k : Nat) : Int), hv, by rw [← hkv]; exact orderDict_lookup order hnd k hk⟩
-      · intro v p hl
-        obtain ⟨k, hk, _, hp⟩ := orderDict_lookup_some order hnd v p hl
-        subst hp
-        constructor
-        · omega
-        · have : k < m1.nvars := by rw [hnv1, ← hlen]; exact hk
-          exact_mod_cast this
-      · intro v v' p h1 h2
-        obtain ⟨k, hk, hkv, hp⟩ := orderDict_lookup_some order hnd v p h1
-        obtain ⟨k', hk', hkv', hp'⟩ := orderDict_lookup_some order hnd v' p h2
-        have : k = k' := by omega
-        subst this
-        rw [← hkv, ← hkv']
+    obtain ⟨hI1, _, hreq, hnv1, hv1, _, hheld1⟩ := prep_gc ext mb h dvars order sorted hO m1 hG
     have hsort := sortToOrder_exact (swapOK ext) (b2mOrderDict order) m1 hI1 hreq
     have hre : reorder (some (b2mOrderDict order)) m1 = sortToOrder (b2mOrderDict order) m1 := rfl
     rw [hre] at hr
@@ -101,6 +185,7 @@ theorem b2mPrepare_spec (ext : Nat → Nat) (mb : Mgr) (h : ReorderInv ext mb) (
     · next m2' hso =>
       rw [hso] at hsort
       obtain ⟨hI2, hR, hnv2, hpos⟩ := hsort
+      obtain ⟨hz, hnames, _⟩ := prep_zone ext mb dvars hd order sorted hO m1 m2' hv1 hnv1 hI2 hR hnv2 hpos
       split at hr
       · cases hr
       · next zones hzones =>
@@ -112,66 +197,10 @@ theorem b2mPrepare_spec (ext : Nat → Nat) (mb : Mgr) (h : ReorderInv ext mb) (
             simp only [Prod.mk.injEq, Except.ok.injEq] at hr
             obtain ⟨hp, hm⟩ := hr
             subst hp hm
-            -- positions after the reordering
-            have hposk : ∀ k (hk : k < order.length),
-                m2'.tbl.vars[order[k]]? = some k ∧ m2'.tbl.l2v[k]? = some order[k] := by
-              intro k hk
-              have hdecl : m1.tbl.vars.contains order[k] = true := by
-                rw [hsub.vars]; exact (hmem _).mp (List.getElem_mem hk)
-              have := hpos order[k] ((k : Nat) : Int) (orderDict_lookup order hnd k hk) hdecl
-              simpa using this
-            have hnvo : m2'.tbl.nvars = order.length := by
-              show m2'.nvars = _
-              rw [hnv2, hnv1, hlen]
-            have hflat : order = (sorted.map (·.bits)).flatten := by
-              rw [hS.eq, List.flatMap_def]
-            -- the zone of a level
-            have hblock : ∀ ℓ (hℓ : ℓ < order.length),
-                ∃ (hj : blockOf (sorted.map (·.bits)) ℓ < sorted.length),
-                  order[ℓ] ∈ (sorted[blockOf (sorted.map (·.bits)) ℓ]).bits := by
-              intro ℓ hℓ
-              have hℓ' : ℓ < (sorted.map (·.bits)).flatten.length := by rw [← hflat]; exact hℓ
-              obtain ⟨hj, hm⟩ := blockOf_spec (sorted.map (·.bits)) ℓ hℓ'
-              have hj' : blockOf (sorted.map (·.bits)) ℓ < sorted.length := by simpa using hj
-              refine ⟨hj', ?_⟩
-              have e : order[ℓ] = (sorted.map (·.bits)).flatten[ℓ] := by
-                congr 1 <;> first | exact hflat | skip
-              rw [e]
-              simpa using hm
-            have hbnd := hd.bits_nodup
-            have hzl : ∀ ℓ (hℓ : ℓ < order.length),
-                zoneLevel dvars m2'.tbl ℓ = blockOf (sorted.map (·.bits)) ℓ := by
-              intro ℓ hℓ
-              obtain ⟨hj, hbm⟩ := hblock ℓ hℓ
-              obtain ⟨hdm, hlv⟩ := hS.at_ _ hj
-              unfold zoneLevel
-              rw [(hposk ℓ hℓ).2]
-              simp only
-              rw [btv_uniq hbnd hdm hbm]
-              exact hlv
-            have hnames : ∀ v : String, m2'.tbl.vars.contains v = mb.tbl.vars.contains v := by
-              intro v; rw [hR.names v, hsub.vars]
-            refine ⟨rfl, rfl, hI2, by rw [hR.lastLen, hsub.lastLen]; exact hoff, ?_, ?_, hnames⟩
-            · refine ⟨hI2.order, ?_, ?_, ?_, ?_, ?_, ?_, ?_⟩
-              · intro ℓ hℓ
-                rw [hnvo] at hℓ
-                obtain ⟨hj, hbm⟩ := hblock ℓ hℓ
-                obtain ⟨hdm, _⟩ := hS.at_ _ hj
-                exact ⟨order[ℓ], _, (hposk ℓ hℓ).2, btv_uniq hbnd hdm hbm, hdm, hbm⟩
-              · intro a b hab hb
-                rw [hnvo] at hb
-                rw [hzl a (by omega), hzl b hb]
-                exact blockOf_mono _ a b hab
-              · intro d hdm b hb
-                rw [hnames, ← keys_mem_iff, ← hd.bits.mem_iff, List.mem_flatMap]
-                exact ⟨d, hdm, hb⟩
-              · intro d hdm b hb; exact btv_uniq hbnd hdm hb
-              · exact bits_nodup_of_flatMap hbnd
-              · intro d hdm; exact hd.level_lt hdm
-              · exact hd.level_inj
-            · intro u hu
-              refine ⟨hI2.held_mem hu, ?_⟩
-              intro a
-              rw [hR.held u hu a, hheld1 u hu a]
+            refine ⟨rfl, rfl, hI2, hz, ?_, hnames⟩
+            intro u hu
+            refine ⟨hI2.held_mem hu, ?_⟩
+            intro a
+            rw [hR.held u hu a, hheld1 u hu a]
 
 end DD
